@@ -362,7 +362,7 @@ def r03_3(ctx: Ctx) -> None:
     # the returned value is the canonicalised join or the name relative to cwd
     g = ctx.prog.func("helpers", "is_path_valid")
     for r in [n for n in walk(g.node) if isinstance(n, ast.Return)]:
-        v = r.value
+        v = q.expand_locals(g, r.value) if r.value is not None else None
         good = isinstance(v, ast.Call) and attr_tail(v) == "is_relative_to" and v.args and \
             isinstance(v.args[0], ast.Call) and attr_tail(v.args[0]) == "canonical_path"
         ctx.check(bool(good), "R03.3", g, r, "is_path_valid canonicalises before comparing",
